@@ -165,6 +165,19 @@ func runC06(c *Checker) {
 	c.checkExtractCRC()
 	c.checkReadPMT()
 	c.checkCarrier()
+	// the two constructors the parser calls per stream and per descriptor are
+	// taken as "store their arguments" above; that is sound for a whole table
+	// only if they keep no state between calls (seed C06i: a stream-type cache
+	// that made the second stream of a table report the first one's type)
+	for _, a := range []string{"psi:NewPmtElementaryStream", "psi:NewPmtDescriptor"} {
+		fn, err := c.P.Func(a)
+		if err != nil {
+			c.undecided("C06.parse", a, "anchor", err.Error())
+			continue
+		}
+		gw := globalWrites(fn)
+		c.check("C06.parse", a, "keeps no state between calls: no store through a package-level variable in the constructor or its callees", len(gw) == 0, strings.Join(gw, "; "))
+	}
 }
 
 func (c *Checker) checkPSIAccessors() {
